@@ -14,7 +14,7 @@
 //! BuiltinUndefined, FrameUnderflow, unknown tuple id, index panic).
 use qverif::run::{Builtins, FrontError, Unit, compile_source};
 use qverif::{Ev, Model, Opts, Rng, catch};
-use quiver_core::bytecode::Bytecode;
+use quiver_core::bytecode::{Bytecode, Instruction};
 use quiver_core::value::Value;
 use quiver_io::NativeEffect;
 use serde_json::json;
@@ -249,6 +249,82 @@ fn process_source(cx: &mut Ctx, ev: &mut Ev, src: &Source, rng: &mut Rng, run_it
         } else {
             ev.violation("driver kind=bad-annotations", "model driver returned unparsable annotations",
                 json!({"broken": "qm_c07 (annotations) answer", "answer": anns_answer.chars().take(300).collect::<String>()}), false);
+        }
+    }
+
+    // full-system tie for programs with process instructions: REPL line in a real Environment +
+    // Worker (deterministic simulator), instruction trace per process
+    if run_it && as_compiled_ok && has_process_ops(&bc) {
+        match run_system_traced(&src.text, &cx.b, 1500) {
+            Err(why) => ev.hit(&format!("system-run:skipped:{}", why.split(':').next().unwrap_or("?"))),
+            Ok(run) => {
+                ev.hit(&format!("system-run:{}", run.outcome.split(':').next().unwrap_or("?")));
+                if run.unattributed > 0 {
+                    ev.add("system-run:unattributed-segments", run.unattributed as u64);
+                }
+                let t = tables_of(&run.program);
+                let c = certify(&mut cx.model, &t);
+                ev.add("certified-functions:repl-merged", c.functions as u64);
+                cx.functions += c.functions as u64;
+                if c.reject.is_some() {
+                    report_reject(ev, src, "repl-merged", &t, &c);
+                } else if let Some(anns) = parse_anns(&cx.model.ask("(annotations)")) {
+                    ev.add("system-run:processes", run.traces.len() as u64);
+                    for (pid, trace) in &run.traces {
+                        let tc = check_trace(&run.program.functions, &anns, trace);
+                        cx.trace_points += tc.points as u64;
+                        ev.add("trace-points:system", tc.points as u64);
+                        ev.add("system-run:select-filter-calls", tc.select_filter_calls as u64);
+                        for (f, pc, _, _) in trace.iter() {
+                            if let Some(i) = run.program.functions.get(*f).and_then(|x| x.instructions.get(*pc)) {
+                                if matches!(i, Instruction::Spawn | Instruction::Send | Instruction::Select | Instruction::Self_ | Instruction::Process(_, _)) {
+                                    ev.hit(&format!("system-traced-op:{}", instr_token(i).split(':').next().unwrap()));
+                                }
+                            }
+                        }
+                        if let Some((k, what)) = &tc.mismatch {
+                            let (f, pc, _, _) = trace[*k];
+                            ev.violation(
+                                "trace kind=shape-mismatch path=system",
+                                &format!("full-system trace of process {pid} leaves the annotated shape in {}: {what}", src.origin),
+                                json!({"broken": "correspondence M-VM/M-Check <-> executor (full system, per-process instruction trace)",
+                                       "origin": src.origin, "source": src.text, "process": pid, "trace_index": k, "what": what,
+                                       "function": f, "pc": pc, "code": dump_function(&run.program.functions[f]),
+                                       "trace_tail": trace[k.saturating_sub(12)..=*k].to_vec()}),
+                                false,
+                            );
+                            continue;
+                        }
+                        let reqs: Vec<String> = tc.steps.keys().cloned().collect();
+                        let answers = cx.model.ask_all(&reqs);
+                        ev.add("steps-replayed-in-model", reqs.len() as u64);
+                        for (req, ans) in reqs.iter().zip(answers.iter()) {
+                            let expect = &tc.steps[req];
+                            let mut it = req.split_whitespace().skip(1);
+                            if let (Some(Ok(rf)), Some(Ok(rpc))) = (it.next().map(|x| x.parse::<usize>()), it.next().map(|x| x.parse::<usize>())) {
+                                ev.hit(&format!("step-op:{}", instr_token(&run.program.functions[rf].instructions[rpc]).split(':').next().unwrap()));
+                            }
+                            if ans != expect {
+                                ev.violation(
+                                    "step kind=stepInstr-differs path=system",
+                                    &format!("{} (full system): executor step corresponds to `{expect}` but the model's stepInstr answers `{ans}` to `{req}`", src.origin),
+                                    json!({"broken": "correspondence stepInstr <-> executor handler (per-step shape replay, full system)",
+                                           "origin": src.origin, "source": src.text, "request": req, "model": ans, "executor": expect}),
+                                    false,
+                                );
+                                break;
+                            }
+                        }
+                    }
+                    if let Some(class) = run.outcome.strip_prefix("error:") {
+                        if is_structural(class) {
+                            ev.violation(&format!("run kind=structural-error class={class} path=system"),
+                                &format!("{} ends in the structural error {class} in the full system", src.origin),
+                                json!({"origin": src.origin, "source": src.text, "error": class}), true);
+                        }
+                    }
+                }
+            }
         }
     }
 
